@@ -167,6 +167,16 @@ func fullAlphabet() []string {
 	for _, k := range reservedSorted() {
 		out = append(out, fmt.Sprintf("o.%s.a -> o.%s.b", k, k), fmt.Sprintf("o.%s.a -> b", k), fmt.Sprintf("o.%s: {a -> b}", k), fmt.Sprintf("o.%s.a.b", k), fmt.Sprintf("(o.%s.a -> o.%s.b)[0].style.opacity: 1", k, k))
 	}
+	// the same forms with the keyword spelled with capitals (keywords are matched case-insensitively by the IR but several
+	// switches of d2compiler look at the case-preserved name)
+	for _, k := range reservedSorted() {
+		if k == "" {
+			continue
+		}
+		t, u := strings.ToUpper(k[:1])+k[1:], strings.ToUpper(k)
+		out = append(out, fmt.Sprintf("o.%s.a -> o.%s.b", t, t), fmt.Sprintf("o.%s.a -> b", t), fmt.Sprintf("o.%s: {a -> b}", t), fmt.Sprintf("o.%s.a.b", t), fmt.Sprintf("o.%s.a: 1", t), fmt.Sprintf("o: {%s.y: circle}", t),
+			fmt.Sprintf("o.%s.a.b", u), fmt.Sprintf("o.%s.a: 1", u), fmt.Sprintf("*.%s.k: 3", t))
+	}
 	var sk []string
 	for k := range d2ast.StyleKeywords {
 		sk = append(sk, k)
@@ -211,7 +221,7 @@ var c07Core = []string{
 func init() {
 	eng.Register(&eng.Check{
 		ID: "C07", Level: "exploration", Pre: WriteCorpusCache, HangBound: 120 * time.Second,
-		Rule: "token strings over Σ_t (len ≤ 3 quick / 4 thorough); statement sequences over the full-language alphabet (every reserved keyword × 18 value shapes and × 5 forms with children/connections below the keyword, every style keyword × 7 shapes, d2-config keys × 10 shapes, 260 structural statements: globs × filters, vars/spreads, imports, boards, classes, underscores, special shapes) of length ≤ 2 and over the structural core of length ≤ 2 (quick) / 3 (thorough); all assignments of import statements to ≤3 files (every cycle length); non-ASCII names under glob patterns; a size family (14 generators × 10^1..10^4); corpus + single-token neighbours. Each compiled with an in-memory file set by d2compiler.Compile. Non-trivial: every compile is (distinct inputs by construction); outcome classes = distinct (object/edge/board counts | error message lists)",
+		Rule: "token strings over Σ_t (len ≤ 3 quick / 4 thorough); statement sequences over the full-language alphabet (every reserved keyword × 18 value shapes and × 5 forms with children/connections below the keyword, the keyword also spelled Title-case (7 forms) and UPPER-case (2 forms), every style keyword × 7 shapes, d2-config keys × 10 shapes, 260 structural statements: globs × filters, vars/spreads, imports, boards, classes, underscores, special shapes) of length ≤ 2 and over the structural core of length ≤ 2 (quick) / 3 (thorough); sequences ≤3 over 12 statements about variables built from spreads of variables (plus a leaf filter and an import whose top level is a spread); all assignments of import statements to ≤3 files (every cycle length); non-ASCII names under glob patterns; a size family (14 generators × 10^1..10^4); corpus + single-token neighbours. Each compiled with an in-memory file set by d2compiler.Compile. Non-trivial: every compile is (distinct inputs by construction); outcome classes = distinct (object/edge/board counts | error message lists)",
 		Assumptions: []string{"the time clause is decided as a hang/blow-up detector (120 s per input, sizes up to 10^4), not as a proportionality measurement", "a worker death (stack overflow / OOM) is attributed to the input in flight", "nesting depth (boards, maps, key paths) is capped at 100 (quick) / 1000 (thorough; nested boards 300) in the size family: compile time was measured quadratic in the nesting depth, which a hang detector cannot classify soundly"},
 		Oracles: map[string]eng.Oracle{"compile": c07Compile, "fileset": c07FileSet, "size": c07Size},
 		Run: func(w *eng.W) {
@@ -267,6 +277,19 @@ func init() {
 					Seqs(c07Core, 3, func(s []string) { w.Eval("compile", strings.Join(s, "\n")) })
 				})
 			}
+			w.Phase("vars-built-from-spreads-of-vars<=3", func() {
+				// variables whose maps are themselves built from spreads of other variables, consumed by spreads, next to a
+				// leaf filter and to an imported file whose top level holds a spread substitution (acyclic by construction)
+				stm := []string{"x: {...${v}}", "...${v}", "y: ${v}", "vars: {w: {b: 2}}", "vars: {v: {...${w}; a: 1}}", "vars: {v: {...${w}}}", "vars: {v: {c: ${w}}}", "vars: {v: {a: 1}}",
+					"*: {&leaf: true; style.fill: red}", "x: {...@imp}", "...@imp", "k: @imp"}
+				imp := "vars: {v: {a: 1}}\n...${v}\nq\n"
+				for k := 1; k <= 3; k++ {
+					Seqs(stm, k, func(s []string) {
+						b, _ := json.Marshal(struct{ Files Files }{Files{"index.d2": strings.Join(s, "\n") + "\n", "imp.d2": imp}})
+						w.Eval("fileset", string(b))
+					})
+				}
+			})
 			w.Phase("import-file-sets", func() {
 				imps := []string{"", "...@%s", "k: @%s", "k: {...@%s}", "k: [@%s]", "...@\"./%s\"", "k: @%s.d2", "...@%s.o", "layers: {l: @%s}"}
 				names := []string{"index", "x", "y"}
